@@ -181,6 +181,49 @@ func checkC20(c *Check, p *Program) {
 				}
 			}
 		}
+		if inboundState < 0 {
+			// the channel kept in a local that is set to nil once the channel was seen closed (a nil
+			// channel blocks: the rest of the wait is spent on the timer): phi(socket.Inbound(), nil, itself)
+			isInboundCall := func(v ssa.Value) bool {
+				call, ok := v.(*ssa.Call)
+				if !ok {
+					return false
+				}
+				o := calleeObj(call)
+				return o != nil && o.Name() == "Inbound" && callRecv(call) == sock
+			}
+			for i, st := range sel.States {
+				ph, ok := st.Chan.(*ssa.Phi)
+				if !ok || st.Dir != types.RecvOnly {
+					continue
+				}
+				okPhi, sawCall := true, false
+				for ei, e := range ph.Edges {
+					switch {
+					case isInboundCall(e):
+						sawCall = true
+					case e == ssa.Value(ph):
+					case isNilConst(e):
+						// only after the channel was seen closed: the edge is behind recvOk == false of this select
+						pred := ph.Block().Preds[ei]
+						closed := anyFact(append(factsAt(pred), edgeFacts(pred, ph.Block())...), func(f Cmp) bool {
+							return cmpIsBool(f, false, func(v ssa.Value) bool {
+								ex, ok := v.(*ssa.Extract)
+								return ok && ex.Tuple == ssa.Value(sel)
+							})
+						})
+						if !closed {
+							okPhi = false
+						}
+					default:
+						okPhi = false
+					}
+				}
+				if okPhi && sawCall {
+					inboundState = i
+				}
+			}
+		}
 		c.Decide(inboundState >= 0, "C20.D4", name+" waits on the socket's inbound channel", pos, "select receives from socket.Inbound()", "the select does not receive from the socket that the request was sent on")
 		if inboundState >= 0 {
 			rv := selectRecvValue(sel, inboundState)
